@@ -467,6 +467,12 @@ func (v *vc) enterLoop(fr *frame, st *state, li *loopInfo, hdrEntry map[*ssa.Bas
 	}
 	if ls != nil {
 		henv := v.phiEnv(fr, h, func(phi *ssa.Phi) string { return fr.vals[phi] })
+		for _, c := range ls.assumes {
+			se := v.newSpecEnv(fr, n, h)
+			se.overrides = henv
+			v.fact(n, se.evalAssume(c.expr))
+			v.trusted[fmt.Sprintf("ASSUMED loop invariant (not proved) in %s loop %d: %s: %s", v.fnName, li.ordinal, c.label, c.text)] = true
+		}
 		for _, c := range ls.invariants {
 			se := v.newSpecEnv(fr, n, h)
 			se.overrides = henv
